@@ -35,6 +35,8 @@ type MapIter struct {
 	mt  *types.Map
 	vis *Term // location of the ghost cell holding the set of keys already produced
 	visHeap string
+	cnt     *Term // location of the ghost cell counting the keys produced so far
+	len0    *Term // length of the map when the iteration started
 }
 
 // State maps heap names to their current array term.
@@ -88,6 +90,7 @@ type Obligation struct {
 	Model   string
 	Output  string
 	IsCover bool
+	FullCover bool // vacuity sentinel: all hypotheses kept; any "unsat" means the point is unreachable in the model
 	relaxed bool
 	refute  *Term
 	parts   []*Term // conjuncts of the goal that may be discharged separately (one per return path)
@@ -121,6 +124,7 @@ type Ctx struct {
 	splits    [][]*Term // each entry: exhaustive list of case hypotheses
 	trivialSafety int
 	witness   []witnessTerm
+	dynAlloc  bool               // objects other than plain locals were allocated (make, append, map, boxes)
 	escaped   map[int]bool       // allocation ids whose address may be known outside the verified function
 	allocType map[int]types.Type // allocation id -> allocated type (objects created by Alloc)
 }
@@ -907,7 +911,7 @@ func (o *Obligation) queryLocked(getModel bool, hyp *Term) string {
 			w.b.Definitions(di, a.mark, &body)
 			di = a.mark
 		}
-		if (o.IsCover || o.relaxed) && hasQuantifier(a.t, map[int]bool{}) {
+		if ((o.IsCover && !o.FullCover) || o.relaxed) && hasQuantifier(a.t, map[int]bool{}) {
 			continue // covers check the quantifier-free part of the hypotheses
 		}
 		body.WriteString("(assert ")
@@ -917,7 +921,7 @@ func (o *Obligation) queryLocked(getModel bool, hyp *Term) string {
 	if o.mark > di {
 		w.b.Definitions(di, o.mark, &body)
 	}
-	if !o.IsCover && !o.relaxed {
+	if (!o.IsCover || o.FullCover) && !o.relaxed {
 		body.WriteString(cx.axioms(o.mark))
 	}
 	if hyp != nil {
